@@ -93,6 +93,17 @@ class DetLoop(asyncio.SelectorEventLoop):
         finally:
             self._leave()
 
+    def step(self):
+        """One iteration of the loop: the callbacks that are ready now."""
+        if not self._ready:
+            return False
+        self._enter()
+        try:
+            self._run_once()
+        finally:
+            self._leave()
+        return True
+
     def next_timer(self):
         whens = [h._when for h in self._scheduled if not h._cancelled]
         return min(whens) if whens else None
